@@ -2,18 +2,34 @@
 
 Engine E1 (tasks): a pool of 2..6 real Deferreds; the tape interleaves
 add-callback (behaviour fixed when added: return value / raise / return Failure /
-echo input / return Deferred d_j), pause, unpause and fire operations.  Every
+echo input / return Deferred d_j), pause, unpause and fire operations.  The
+raising behaviour raises either an Exception or (knob) a harness-defined class
+that derives from BaseException only.  A share of the callbacks (knob) is
+re-entrant: before behaving, the callback itself issues 1..2 of the program's
+operations - pause / unpause of any Deferred of the pool (its own included),
+fire of a Deferred that has not fired yet, add of a callback to any Deferred
+(its own included).  Every
 user callback is a recording closure.  Oracle: models/deferred.py, a recursive
 interpreter of the documented chaining rules, compared after EVERY operation
 (invocation log with inputs, called, pause count, current result or "waiting on
 d_j", callbacks not yet run) plus a model-free invariant: at quiescence a fired,
-unpaused Deferred has no callbacks left.
+unpaused Deferred has no callbacks left; and no exception raised by a callback
+may come out of the program's own add/fire/unpause call.
+
+No verdict (run ends, probe undetermined_midpass_pause_run_ends): the pause
+count of a Deferred is raised from inside a callback while that very Deferred is
+in the middle of a processing pass, it is not waiting and still has entries
+queued.  The documentation of pause() speaks of callbacks "as they are added"
+and of firing, not of entries already queued in a pass under way, so the
+statement is silent there (the implementation finishes the entries of the
+Deferred whose callback is executing but stops a Deferred that is further down
+in the chain of hand-overs).
 """
 from twisted.internet import defer
 from twisted.python.failure import Failure
 
-from models.deferred import Interp
-from props._defer_util import Boom, absres, real_view
+from models.deferred import Interp, Undetermined
+from props._defer_util import Boom, Halt, absres, real_view
 
 ID = "C01"
 ENGINE = "tasks"
@@ -27,9 +43,16 @@ COMPONENTS = {"real": ["twisted.internet.defer.Deferred (addCallbacks/addCallbac
                        "twisted.python.failure.Failure"],
               "stub": ["order in which the program issues its operations (tape)"]}
 RULE = ("run = 4..25 tape-chosen operations over 2..6 Deferreds (add callback pair with drawn behaviour, pause, unpause, fire with "
-        "value/failure); non-trivial = at least one callback returned a Deferred (take or wait) AND at least 3 user callbacks ran")
-ASSUMPTIONS = ["operations are issued from outside callbacks; a callback never returns the Deferred it is attached to",
-               "unpause is only issued to match an earlier pause by the program",
+        "value/failure); in 3 of 4 runs 15 % or 35 % of the callbacks first issue 1..2 operations of their own from inside "
+        "(pause/unpause/fire/add on any Deferred of the pool, their own included); in 2 of 3 runs 30 % or 60 % of the raising "
+        "callbacks raise a BaseException that is not an Exception; "
+        "non-trivial = at least one callback returned a Deferred (take or wait) AND at least 3 user callbacks ran")
+ASSUMPTIONS = ["a callback never returns the Deferred it is attached to; callbacks added from inside a callback issue no operations themselves",
+               "unpause (from outside or from inside a callback) is only issued to match an earlier pause by the program; fire only on a "
+               "Deferred that has not fired",
+               "the BaseException raised by callbacks is a harness-defined class (never SystemExit/KeyboardInterrupt/GeneratorExit)",
+               "no verdict once a Deferred's pause count was raised in the middle of one of its own processing passes while it is not "
+               "waiting and has entries left (documentation silent, see module text): the run ends there",
                "in half of the runs (config avoid_pause_while_waiting) the program never pauses a Deferred that is currently "
                "waiting on another one (the precondition of the defect with signature C01:stalled-callbacks:outer-user-paused), "
                "so that all other clauses are still checked on full-length runs"]
@@ -42,10 +65,15 @@ def run(sim):
     avoid = sim.draw_bool(0.15, "avoid_pause_while_waiting")
     w_def = sim.draw_choice([4, 2, 7], "w_returns_deferred")
     w_pause = sim.draw_choice([2, 0, 4], "w_pause")
-    sim.config = {"ndeferreds": nd, "nops": nops, "avoid_pause_while_waiting": avoid, "w_returns_deferred": w_def, "w_pause": w_pause, "w_fire": w_fire}
+    # share of the callbacks that operate on the pool from inside (pause / unpause of any Deferred, their own included)
+    inner_p = sim.draw_choice([0.0, 0.15, 0.35, 0.15], "inner_ops_p")
+    # share of the raising callbacks that raise a BaseException which is not an Exception
+    base_p = sim.draw_choice([0.0, 0.3, 0.6], "raise_baseexception_p")
+    sim.config = {"ndeferreds": nd, "nops": nops, "avoid_pause_while_waiting": avoid, "w_returns_deferred": w_def, "w_pause": w_pause, "w_fire": w_fire,
+                  "inner_ops_p": inner_p, "raise_baseexception_p": base_p}
 
     names = ["d%d" % i for i in range(nd)]
-    m = Interp()
+    m = Interp(midpass_undetermined=True)
     real = {}
     for n in names:
         m.new(n)
@@ -60,17 +88,48 @@ def run(sim):
         st["val"] += 1
         return st["val"]
 
-    def make(dname, beh):
-        """Recording closure with behaviour fixed at creation; returns (fn, spec)."""
+    def make(dname, beh, acts=(), racts=()):
+        """Recording closure with behaviour (and operations it issues from inside) fixed at creation; returns (fn, spec)."""
         st["cid"] += 1
         cid = st["cid"]
         kind = beh[0]
 
         def f(res):
             rlog.append((dname, cid, absres(res, None)))
+            for a in racts:
+                # the program's own operations, issued from inside this callback
+                act, tname = a[0], a[1]
+                where = "_own" if tname == dname else "_other"
+                if act == "pause":
+                    sim.fault("inner_pause" + where)
+                    user_paused[tname] += 1
+                    real[tname].pause()
+                elif act == "unpause":
+                    if user_paused[tname] > 0:
+                        sim.fault("inner_unpause" + where)
+                        user_paused[tname] -= 1
+                        real[tname].unpause()
+                elif act == "fire":
+                    if not real[tname].called:
+                        sim.fault("inner_fire")
+                        if a[2][0] == "V":
+                            real[tname].callback(a[2][1])
+                        else:
+                            real[tname].errback(Boom(a[2][1]))
+                else:
+                    sim.fault("inner_add" + where)
+                    if a[2] is None:
+                        real[tname].addErrback(a[3])
+                    elif a[3] is None:
+                        real[tname].addCallback(a[2])
+                    else:
+                        real[tname].addCallbacks(a[2], a[3])
             if kind == "value":
                 return beh[1]
             if kind == "raise":
+                if len(beh) > 2:
+                    sim.fault("raise_baseexception")
+                    raise Halt(beh[1])
                 raise Boom(beh[1])
             if kind == "failure":
                 return Failure(Boom(beh[1]))
@@ -78,12 +137,44 @@ def run(sim):
                 return res
             return real[beh[1]]
         f.cid = cid
-        return f, (cid, beh)
+        return f, ((cid, beh, acts) if acts else (cid, beh))
+
+    def draw_actions(dname):
+        if not (inner_p and sim.draw_bool(inner_p, "inner_ops")):
+            return (), ()
+        acts, racts = [], []
+        for _ in range(sim.draw_int(1, 2, "n_inner")):
+            act = sim.draw_weighted([("pause", 3), ("unpause", 2), ("fire", 2), ("add", 2)], "inner_op")
+            others = [n for n in names if n != dname]
+            if act == "fire":
+                # (its own Deferred has fired by the time the callback runs)
+                tname = sim.draw_choice(others, "inner_on")
+                res = ("F", "e%d" % fresh()) if sim.draw_bool(0.3, "inner_fire_failure") else ("V", fresh())
+                acts.append((act, tname, res))
+                racts.append((act, tname, res))
+                continue
+            tname = sim.draw_choice(others, "inner_on") if sim.draw_bool(0.5, "inner_on_other") else dname
+            if act == "add":
+                form = sim.draw_weighted([("callback", 4), ("both", 3), ("errback", 2)], "inner_form")
+                f, spec = make(tname, draw_behaviour(tname))
+                acts.append((act, tname, None if form == "errback" else spec, None if form == "callback" else spec))
+                racts.append((act, tname, None if form == "errback" else f, None if form == "callback" else f))
+            else:
+                acts.append((act, tname))
+                racts.append((act, tname))
+        return tuple(acts), tuple(racts)
+
+    def draw_callback(dname):
+        beh = draw_behaviour(dname)
+        acts, racts = draw_actions(dname)
+        return make(dname, beh, acts, racts)
 
     def draw_behaviour(dname):
         kind = sim.draw_weighted([("value", 4), ("raise", 2), ("failure", 1), ("echo", 1), ("deferred", w_def)], "behaviour")
         if kind == "value":
             return ("value", fresh())
+        if kind == "raise" and base_p and sim.draw_bool(base_p, "baseexception"):
+            return ("raise", "h%d" % fresh(), "base")
         if kind in ("raise", "failure"):
             return (kind, "e%d" % fresh())
         if kind == "echo":
@@ -100,23 +191,23 @@ def run(sim):
         if md.called:
             sim.probe("added_after_fire")
         if form == "callback":
-            f, spec = make(dname, draw_behaviour(dname))
+            f, spec = draw_callback(dname)
             sim.event("add", dname, "callback", spec)
             m.add(md, spec, None)
             d.addCallback(f)
         elif form == "errback":
-            f, spec = make(dname, draw_behaviour(dname))
+            f, spec = draw_callback(dname)
             sim.event("add", dname, "errback", spec)
             m.add(md, None, spec)
             d.addErrback(f)
         elif form == "both":
-            f, spec = make(dname, draw_behaviour(dname))
+            f, spec = draw_callback(dname)
             sim.event("add", dname, "both", spec)
             m.add(md, spec, spec)
             d.addBoth(f)
         else:
-            f, spec = make(dname, draw_behaviour(dname))
-            g, gspec = make(dname, draw_behaviour(dname))
+            f, spec = draw_callback(dname)
+            g, gspec = draw_callback(dname)
             sim.event("add", dname, "pair", spec, gspec)
             m.add(md, spec, gspec)
             d.addCallbacks(f, g)
@@ -194,7 +285,18 @@ def run(sim):
                 break
             op = sim.draw_weighted(enabled, "op")
             del m.notes[:]
-            ops[op]()
+            try:
+                ops[op]()
+            except Undetermined:
+                # the reference interpreter reached a point the documented rules do not determine (the pause count of a
+                # Deferred was raised in the middle of one of its own processing passes, entries left): no verdict on
+                # this operation or anything after it - the run ends here
+                sim.probe("undetermined_midpass_pause_run_ends")
+                break
+            except Halt as e:
+                sim.fail("operation-raised", "callback-baseexception-escaped",
+                         "%s: the exception %s(%r) raised by a callback came out of the program's own call instead of becoming "
+                         "the Deferred's failure result" % (op, type(e).__name__, e.args))
             for x in m.notes:
                 if x[0] == "handover":
                     sim.probe("handover_outer_still_paused" if x[3] else "handover")
@@ -217,4 +319,14 @@ MUTANTS = [
     "taking a ready result does not clear the donor (`currentResult.result = None` -> pass): CAUGHT (state-result)",
     "continuation inserted at the front of the inner's list (`callbacks.insert(0, ...)`): CAUGHT (invocations)",
     "unfired returned Deferred treated as having a result (drop `resultResult is _NO_RESULT or`): CAUGHT (state-paused)",
+    # round 4 (re-entrant callbacks, BaseException raised by callbacks; on the repaired tree)
+    "waiting sets the pause count instead of raising it (`current.pause()` -> `current.paused = 1`, seeded): CAUGHT (state-paused) - needs a "
+    "callback that pauses its own Deferred and then returns an unfired one",
+    "only Exception raised by a callback becomes a Failure (`except BaseException` -> `except Exception`, seeded): CAUGHT "
+    "(operation-raised:callback-baseexception-escaped)",
+    "no recursion guard (drop `if self._runningCallbacks: return` in _runCallbacks): CAUGHT (invocations / state-result) - needs add/unpause of "
+    "the own Deferred from inside a callback",
+    "`self._runningCallbacks = True` instead of `current._runningCallbacks = True`: CAUGHT (invocations / stalled-callbacks)",
+    "`_runningCallbacks` never reset: CAUGHT (stalled-callbacks)",
+    "unpause tests `self.paused > 0` instead of truthiness: survives (equivalent: the count is never negative for matched pause/unpause)",
 ]
